@@ -333,7 +333,7 @@ func runC09(p *Program, r *Report) {
 				if g == nil || g.Pkg == nil || g.Pkg.Pkg.Path() != "text/template" {
 					continue
 				}
-				delegationLocked[g.Name()] = lockHeldAt(pv, f, c)
+				delegationLocked[cname(g)] = lockHeldAt(pv, f, c)
 			}
 		}
 	}
@@ -348,7 +348,7 @@ func runC09(p *Program, r *Report) {
 	for _, fs := range fstores {
 		c := fmt.Sprintf("%s#foreign-write:%s", strings.TrimPrefix(fnName(fs.fn), pkgTemplate+"."), fs.field)
 		pos := p.Pos(fs.st.Pos())
-		key := fs.fn.Name() + "|" + fs.field
+		key := cname(fs.fn) + "|" + fs.field
 		switch {
 		case fs.fresh:
 			r.OK("C09.R2", c, pos, "object created in the same function (not yet published)")
